@@ -315,14 +315,7 @@ impl Check for C07Check {
         // The parser runs on a thread with the stack an ordinary caller has (2 MiB is std's default
         // for spawned threads; the worker's own stack is 512 MiB and would hide recursion whose
         // depth the sender controls). A stack overflow aborts the process: reported as no-abort.
-        std::thread::scope(|sc| {
-            std::thread::Builder::new()
-                .stack_size(2 << 20)
-                .spawn_scoped(sc, || run_on_caller_stack(scenario, stats))
-                .expect("spawn C07 runner thread")
-                .join()
-                .unwrap_or_else(|p| std::panic::resume_unwind(p))
-        })
+        simcore::driver::run_on_stack(2 << 20, "C07", || run_on_caller_stack(scenario, stats))
     }
 
     fn shrink(&self, scenario: &Value) -> Vec<Value> {
